@@ -2,10 +2,14 @@
 (***************************************************************************)
 (* pigeon's OWN left-recursion analysis, transcribed from                  *)
 (* ast/ast.go (NullableVisit / IsNullable / InitialNames, with the flags   *)
-(* cached in the nodes, the Visited short-circuit, and Go's short-circuit  *)
-(* evaluation) and builder/left_recursion.go (ComputeNullables iterating a *)
-(* map: the ORDER in which rules are visited is a parameter, so that TLC   *)
-(* can explore every iteration order -- C19).                              *)
+(* cached in the nodes and Go's short-circuit evaluation) and              *)
+(* builder/left_recursion.go (ComputeNullables: the rule flags as a least  *)
+(* fix-point, every round computed from the flags of the previous round -- *)
+(* since the repair of F28; before it every reference visited the rule     *)
+(* again, cut short at a rule being visited, and the result depended on    *)
+(* the visiting order).  The ORDER in which the rules of a round are       *)
+(* visited is still a parameter, so that TLC can show for every grammar    *)
+(* of the family that it no longer matters (C19, LeftRecOrders).           *)
 (* Switches name what the code does and what a repair would do:            *)
 (*   sw.choiceAll  : ChoiceExpr.NullableVisit visits every alternative     *)
 (*                   (as built: stops at the first nullable one -- F6)     *)
@@ -18,10 +22,11 @@
 (***************************************************************************)
 EXTENDS Integers, Sequences, FiniteSets, TLC
 
-St0(G) == [nf |-> [e \in 1..Len(G.nodes) |-> FALSE], vis |-> {}, rn |-> [i \in 1..Len(G.rules) |-> FALSE]]
+St0(G) == [nf |-> [e \in 1..Len(G.nodes) |-> FALSE], rn |-> [i \in 1..Len(G.rules) |-> FALSE]]
 R2(v, st) == [v |-> v, st |-> st]
 
-RECURSIVE Visit(_,_,_,_), VisitSeq(_,_,_,_,_), VisitCh(_,_,_,_,_,_), VisitRule(_,_,_,_)
+(* st.nf = the flags cached in the nodes, st.rn = the rule flags of the PREVIOUS round (read by references) *)
+RECURSIVE Visit(_,_,_,_), VisitSeq(_,_,_,_,_), VisitCh(_,_,_,_,_,_)
 Visit(G, sw, e, st) ==
   LET n == G.nodes[e] IN
   CASE n.k = "lit" -> R2(Len(n.s) = 0, st)
@@ -32,13 +37,12 @@ Visit(G, sw, e, st) ==
     [] n.k = "plus" -> IF sw.descend THEN R2(FALSE, Visit(G, sw, n.kids[1], st).st) ELSE R2(FALSE, st)
     [] n.k = "label" -> Visit(G, sw, n.kids[1], st)
     [] n.k = "action" -> LET r == Visit(G, sw, n.kids[1], st) IN R2(r.v, [r.st EXCEPT !.nf[e] = r.v])
-    [] n.k = "recover" ->
-         LET r1 == Visit(G, sw, n.kids[1], st) IN
-         IF r1.v THEN R2(TRUE, [r1.st EXCEPT !.nf[e] = TRUE])            \* Go's || does not evaluate the right operand
-         ELSE LET r2 == Visit(G, sw, n.kids[2], r1.st) IN R2(r2.v, [r2.st EXCEPT !.nf[e] = r2.v])
+    [] n.k = "recover" ->                                                  \* both operands are visited (repair of F29)
+         LET r1 == Visit(G, sw, n.kids[1], st)
+             r2 == Visit(G, sw, n.kids[2], r1.st) IN R2(r1.v \/ r2.v, [r2.st EXCEPT !.nf[e] = (r1.v \/ r2.v)])
     [] n.k = "seq" -> VisitSeq(G, sw, e, 1, st)
     [] n.k = "choice" -> VisitCh(G, sw, e, 1, st, FALSE)
-    [] n.k = "ref" -> LET r == VisitRule(G, sw, n.rule, st) IN R2(r.v, [r.st EXCEPT !.nf[e] = r.v])
+    [] n.k = "ref" -> R2(st.rn[n.rule], [st EXCEPT !.nf[e] = st.rn[n.rule]])      \* the flag computed so far, no visit of the rule
     [] OTHER -> R2(TRUE, st)                                              \* throw, state, code predicates
 VisitSeq(G, sw, e, i, st) ==
   LET kids == G.nodes[e].kids IN
@@ -51,14 +55,16 @@ VisitCh(G, sw, e, i, st, acc) ==
   ELSE LET r == Visit(G, sw, kids[i], st) IN
        IF r.v /\ ~sw.choiceAll THEN R2(TRUE, [r.st EXCEPT !.nf[e] = TRUE])
        ELSE VisitCh(G, sw, e, i+1, r.st, acc \/ r.v)
-VisitRule(G, sw, ri, st) ==
-  IF ri \in st.vis THEN R2(FALSE, st)                \* "a left-recursive rule is considered non-nullable"
-  ELSE LET r == Visit(G, sw, G.rules[ri], [st EXCEPT !.vis = @ \cup {ri}]) IN
-       R2(r.v, [r.st EXCEPT !.vis = st.vis, !.rn[ri] = r.v])
 
+(* one round: every rule (in the given order) from the rule flags of the previous round; next = the new rule flags *)
+RECURSIVE Round(_,_,_,_,_,_)
+Round(G, sw, order, i, st, next) ==
+  IF i > Len(order) THEN [st EXCEPT !.rn = next]
+  ELSE LET r == Visit(G, sw, G.rules[order[i]], st) IN Round(G, sw, order, i+1, r.st, [next EXCEPT ![order[i]] = r.v])
 RECURSIVE ComputeNullables(_,_,_,_,_)
-ComputeNullables(G, sw, order, i, st) ==
-  IF i > Len(order) THEN st ELSE ComputeNullables(G, sw, order, i+1, VisitRule(G, sw, order[i], st).st)
+ComputeNullables(G, sw, order, i, st) ==            \* i counts the rounds (at most one more than there are rules)
+  LET st1 == Round(G, sw, order, 1, st, st.rn) IN
+  IF st1.rn = st.rn \/ i > Len(G.rules) + 1 THEN st1 ELSE ComputeNullables(G, sw, order, i+1, st1)
 
 RECURSIVE IsNul(_,_,_)
 IsNul(G, st, e) ==
